@@ -24,7 +24,7 @@ theorem Reaches.run_eq {c : Config} {B : Nat} {P : Config → Prop}
     erases of pages 0..pages-1, then set-address and write of each page) is the first to fail -/
 def failMsg (pages : Nat) (s : Schedule) (i : Nat) : ExitMsg :=
   if i < pages then .eraseFailed (pageAddr i) ((s.op i).fault % 256)
-  else if (i - pages) % 2 = 0 then .usbError
+  else if (i - pages) % 2 = 0 then .addrFailed (pageAddr ((i - pages) / 2)) ((s.op i).fault % 256)
   else .writeFailed (pageAddr ((i - pages) / 2)) ((s.op i).fault % 256)
 
 /-- the complete fault-free run -/
@@ -85,7 +85,7 @@ theorem run_fault_reaches (f₀ : Nat → Cell) (hfit : h.fw.length ≤ pageSize
     by_cases hev : j % 2 = 0
     · have hj : 2 * (j / 2) = j := by omega
       have hb : 6 + (costFrom s 0 h.pages + (1 + (costFrom s h.pages (2 * (j / 2)) +
-          (2 * (s.op (h.pages + j)).busy.length + 5)))) ≤ fuelBound h s := by
+          (2 * (s.op (h.pages + j)).busy.length + 4)))) ≤ fuelBound h s := by
         have := costFrom_mono s 0 (h.pages + j + 1) (3 * h.pages) (by omega)
         rw [costFrom_succ_right, Nat.zero_add] at this
         rw [hj] at hcost ⊢
@@ -129,9 +129,9 @@ theorem run_fault_reaches (f₀ : Nat → Cell) (hfit : h.fw.length ≤ pageSize
       refine (write_loop f₀ hpg hsm ha3 hi3 (j / 2) (by omega) hff2).trans ?_
       intro c4 ⟨v4, ha4, hi4⟩
       have hf1 : (s.op v4.opIdx).fault % 256 = 0 := by rw [hi4.opIdx]; exact hff _ (by omega)
-      obtain ⟨st, ha5⟩ := write_iter_addr ha4 hm (by omega) hsm hi4.pending hi4.state hi4.status hf1
+      have ha5 := write_iter_addr ha4 hm (by omega) hsm hi4.pending hi4.state hi4.status hf1
       rw [hi4.opIdx] at ha5
-      refine (Reaches.exact _ ha5).trans (P := fun c => At h s c (.slept .addr (j / 2) st 5) _ 0) ?_
+      refine (Reaches.exact _ ha5).trans (P := fun c => At h s c (.slept .addr (j / 2) 0 5) _ 0) ?_
       intro c5 ha5
       have hidx : h.pages + 2 * (j / 2) + 1 = h.pages + j := by omega
       obtain ⟨hx, ho⟩ := write_iter_data_fault ha5 (by omega) rfl rfl hi4.status rfl (chunk_length hm)
